@@ -87,6 +87,7 @@ def run(ctx):
     sess = markers.Session(h)
     keys = markers.Keys(sess.p)
     lits = literals(ctx, quick)
+    lits = lits + [v for v in ('3.8', '3.7', '3.10', '3.8.1') if v not in lits]
     g = grid(quick)
     ctx.extra['rule'] = ('python_version OP literal for 7 operators x %d literals (1-4 release segments, trailing zeros, pre/post/dev/epoch/local '
                          'decorations) x both operand orders, == / != wildcards, in / not in lists; each evaluated on the X.Y.Z grid (%d points) against a '
@@ -108,6 +109,11 @@ def run(ctx):
             plain = all(c.isdigit() or c == '.' for c in lit)
             cases.append(("python_version %s '%s'" % (op, lit), (lambda xy, op=op, lit=lit: pep440.holds(xy, op, lit)), False, (op, len(rel), plain)))
             cases.append(("'%s' %s python_version" % (lit, pep440.INVERT[op]), (lambda xy, op=op, lit=lit: pep440.holds(xy, op, lit)), False, (op, len(rel), plain, 'rev')))
+            if lit in ('3.8', '3.7', '3.10', '3.8.1'):
+                # no blank on either side of the operator, and blanks of every kind
+                cases.append(("python_version%s'%s'" % (op, lit), (lambda xy, op=op, lit=lit: pep440.holds(xy, op, lit)), False, (op, len(rel), plain, 'tight')))
+                cases.append(("'%s'%spython_version" % (lit, pep440.INVERT[op]), (lambda xy, op=op, lit=lit: pep440.holds(xy, op, lit)), False, (op, len(rel), plain, 'tight-rev')))
+                cases.append(("(python_version\t%s\n'%s')" % (op, lit), (lambda xy, op=op, lit=lit: pep440.holds(xy, op, lit)), False, (op, len(rel), plain, 'blanks')))
         if all(c.isdigit() or c == '.' for c in lit):
             for op in ('==', '!='):
                 cases.append(("python_version %s '%s.*'" % (op, lit), (lambda xy, op=op, lit=lit: pep440.holds(xy, op, lit + '.*')), len(rel) > 2, (op + '*', len(rel))))
@@ -131,6 +137,7 @@ def run(ctx):
                 ctx.failure('parsing %r panicked' % text, {'text': text})
             else:
                 ctx.count('parse-rejected')
+                ctx.failure('the well-formed comparison %r is rejected: %s' % (text, dump(r)[:160]), {'text': text})
             continue
         regs[text] = reg
         try:
